@@ -114,8 +114,41 @@ class Provenance:
                 return {'TMP'}
             return {'LITERAL'} if not tags - {'LITERAL', 'UNKNOWN-LOCAL'} \
                 else tags
+        if isinstance(e, ast.BinOp) and isinstance(e.op, ast.Div):
+            # pathlib: a / b is os.path.join(a, b)
+            j = ast.Call(func=ast.Attribute(value=ast.Attribute(
+                value=ast.Name(id='os', ctx=ast.Load()), attr='path',
+                ctx=ast.Load()), attr='join', ctx=ast.Load()),
+                         args=[e.left, e.right], keywords=[])
+            return self.of(mod, func, j, depth)
         if isinstance(e, ast.Call):
             nm = call_name(e) or ''
+            if nm in ('pathlib.Path', 'Path', 'pathlib.PurePath',
+                      'PurePath', 'pathlib.PosixPath') and e.args:
+                if len(e.args) == 1:
+                    return self.of(mod, func, e.args[0], depth)
+                j = ast.Call(func=ast.Attribute(value=ast.Attribute(
+                    value=ast.Name(id='os', ctx=ast.Load()), attr='path',
+                    ctx=ast.Load()), attr='join', ctx=ast.Load()),
+                             args=list(e.args), keywords=[])
+                return self.of(mod, func, j, depth)
+            if isinstance(e.func, ast.Attribute) and e.func.attr in (
+                    'with_suffix', 'with_name', 'with_stem', 'resolve',
+                    'absolute', 'expanduser', 'as_posix', 'joinpath') and \
+                    nm.split('.')[0] not in ('os', ):
+                if e.func.attr == 'joinpath':
+                    j = ast.Call(func=ast.Attribute(value=ast.Attribute(
+                        value=ast.Name(id='os', ctx=ast.Load()), attr='path',
+                        ctx=ast.Load()), attr='join', ctx=ast.Load()),
+                                 args=[e.func.value] + list(e.args),
+                                 keywords=[])
+                    return self.of(mod, func, j, depth)
+                tags = self.of(mod, func, e.func.value, depth)
+                if e.func.attr.startswith('with_'):
+                    base = {t for t in tags if t in ('OUTFILE', 'INFILE')}
+                    if base:
+                        return {f'DERIVED({t})' for t in base}
+                return tags
             if nm == 'os.path.join' and len(e.args) > 1:
                 # a later component that can be an absolute path replaces
                 # everything before it: a user-supplied path there IS the
@@ -335,6 +368,22 @@ def inventory(prog):
                     # str.replace - ignore unless receiver looks like a path
                     continue
                 add('pathlib', c.func.value, True, c.func.attr)
+            elif isinstance(c.func, ast.Attribute) and c.func.attr in (
+                    'open', 'read_text', 'read_bytes') and not isinstance(
+                        c.func.value, ast.Constant) and not (
+                            isinstance(c.func.value, ast.Name) and (
+                                prog.resolve_name(m, c.func.value.id)
+                                or ('', ))[0] in ('module', 'ext')):
+                # pathlib-style open on a path object
+                if c.func.attr == 'open':
+                    mode = a[0] if a else kw(c, 'mode')
+                    mtxt = mode.value if isinstance(
+                        mode, ast.Constant) else ('r' if mode is None
+                                                  else '?')
+                    writes = bool(set(str(mtxt)) & (WRITE_MODES | {'?'}))
+                    add('open', c.func.value, writes, f'mode {mtxt!r}')
+                else:
+                    add('open', c.func.value, False, c.func.attr)
             elif isinstance(c.func, ast.Attribute) and \
                     c.func.attr == 'truncate':
                 add('truncate', c.func.value, True, 'truncate')
